@@ -15,6 +15,7 @@ MODULES = {  # output file -> generator module
     'Classes': 'gen_classes',
     'Tables': 'gen_tables',
     'Flags': 'gen_flags',
+    'Noise': 'gen_noise',
 }
 
 
